@@ -3,7 +3,7 @@
  *
  * usage: opt_replay <tables-file> <scriptfile> [first]
  * tables-file (written by checks/c08.py from the header line TLC prints, i.e. from MC_OptParse.tla):
- *     I <flags0-word> <int0>
+ *     I <table> <flags0-word> <int0>      (initial content of the boolean word: all 64 bits matter)
  *     O <table> <short-code> <kind> <pp:0|1> <deprecated:0|1> <bit> <long-name-codes>
  * script:  S <sid>
  *          parse <table> <settings|-1> <argv-token|-> <leak-ok:T|F> = ? ?      first call: builds everything
@@ -26,7 +26,7 @@ typedef struct { int sh, kind, pp, dep, bit; char lg[32]; } odef_t;
 enum { K_BOOL, K_INT, K_STR, K_ARGS, K_ABST, K_CNT };
 static odef_t defs[MAXT][MAXO];
 static int ndefs[MAXT];
-static unsigned long flags0_word; static long int0;
+static unsigned long flags0_word[MAXT]; static long int0;
 
 /* targets: every one an unsigned-long sized cell between two guard words, all inside one heap block */
 typedef struct { unsigned long g0, v, g1; } cell_t;
@@ -52,7 +52,11 @@ static void load_tables(const char *path) {
     FILE *f = fopen(path, "r"); char line[1024];
     if (!f) { perror(path); exit(2); }
     while (fgets(line, sizeof(line), f)) {
-        if (line[0] == 'I') sscanf(line + 1, "%lu %ld", &flags0_word, &int0);
+        if (line[0] == 'I') {
+            int t; unsigned long w; long v;
+            if (sscanf(line + 1, "%d %lu %ld", &t, &w, &v) != 3 || t < 1 || t > MAXT) { fprintf(stderr, "bad init line %s", line); exit(2); }
+            flags0_word[t - 1] = w; int0 = v;
+        }
         else if (line[0] == 'O') {
             int t, sh, pp, dep, bit, n, i; char kind[16], lst[512]; long cs[64]; odef_t *d;
             if (sscanf(line + 1, "%d %d %15s %d %d %d %511s", &t, &sh, kind, &pp, &dep, &bit, lst) != 7) { fprintf(stderr, "bad table line %s", line); exit(2); }
@@ -75,7 +79,7 @@ static void setup(int tb, const char *argvtok) {
     cells = (cell_t *) malloc(sizeof(cell_t) * (size_t) (nopt + 1));
     table = (spifopt_t *) malloc(sizeof(spifopt_t) * (size_t) nopt);       /* exact size: redzone right behind the table */
     for (j = 0; j <= nopt; j++) { cells[j].g0 = cells[j].g1 = GUARD; cells[j].v = 0; }
-    cells[0].v = flags0_word;
+    cells[0].v = flags0_word[tb];
     for (j = 0; j < nopt; j++) {
         odef_t *d = &defs[tb][j]; spifopt_t *o = &table[j];
         unsigned long fl = 0;
